@@ -58,3 +58,7 @@ package gitlab
 //@   props C16
 //@   requires event != nil && cache.requestUser == nil
 //@   ensures [idempotent-event] cache.opImported(metaKeyGitlabId, event.ID()) && event.Kind() != EventComment ==> cache.bugOps == old(cache.bugOps)
+// ... and an already imported comment appends an edit only if the tracker's text, once sanitized the way it
+// is stored, differs from the stored message.
+//@   check [unchanged-comment-appends-nothing] event.Kind() == EventComment && errResolve == nil && comment != nil && comment.Message == text.Cleanup(event.(NoteEvent).Body) ==> cache.bugOps == old(cache.bugOps)
+//@   check [edited-comment-is-updated] event.Kind() == EventComment && errResolve == nil && comment != nil && comment.Message != text.Cleanup(event.(NoteEvent).Body) && result == nil ==> cache.bugOps == old(cache.bugOps) + 1
